@@ -146,6 +146,7 @@ BASE = dict(
     p_self=0.12, p_hist_target=0.0, p_forbidden=0.0, final_out=False,
     p_parallel_root=0.15, p_after=0.0, max_states=40, p_final_trans=0.0,
     wild=False, p_internal_false=0.0, p_invoke=0.0, p_invoke_fail=0.3, ondone_forward=True,
+    p_prefix_key=0.12,
 )
 
 PROFILES: Dict[str, Dict[str, Any]] = {
